@@ -6,7 +6,10 @@ open Lean Pymodbus Pymodbus.Sched
 namespace Driver
 
 def parseSReq (j : Json) : P Req := do
-  pure ⟨← fNat j "unit", ← fNat j "addr", ← fNat j "count", ← fNat j "lat"⟩
+  let lost ← match optFld j "lost" with
+    | some v => (do let n ← nat v; pure (n != 0))
+    | Option.none => pure false
+  pure { unit := ← fNat j "unit", addr := ← fNat j "addr", count := ← fNat j "count", lat := ← fNat j "lat", lost := lost }
 
 def parseLockScope (s : String) : P LockScope :=
   match s with
@@ -19,6 +22,7 @@ def parseLockScope (s : String) : P LockScope :=
   | "none" => pure .none
   | "sendOnly" => pure .sendOnly
   | "leakOnFail" => pure .leakOnFail
+  | "lockOnlyWhenCold" => pure .lockOnlyWhenCold
   | o => throw s!"bad lock scope {o}"
 
 def jSMsg : Msg → Json
@@ -65,9 +69,9 @@ def opSched (j : Json) : P Json := do
   if isMacro then
     -- every caller has its first request in hand before the scheduler starts
     for t in List.range n do
-      if (s.threads t).ops.isEmpty && !(s.threads t).todo.isEmpty then
-        s := step scope s t
-        fine := t :: fine
+      let r := macroTail scope 6 s t      -- turn to the first request, plain code up to the first yield point
+      s := r.1
+      fine := r.2.reverse ++ fine
   for t in sched do
     if !(runnable scope s t) then stutter := pos :: stutter
     if isMacro then
@@ -92,7 +96,8 @@ def opSched (j : Json) : P Json := do
   let served := (List.range n).all (fun t =>
     decide (((s.threads t).results.map (·.1)) = reqs t) &&
     (s.threads t).results.all (fun x =>
-      decide (Spec.OwnReply x) || (anyRefused && decide (x.2.2 = Result.raised PyErr.modbusExc))))
+      (!x.1.lost && decide (Spec.OwnReply x)) || (x.1.lost && decide (x.2.2 = Result.err PyErr.modbusIO)) ||
+      (anyRefused && decide (x.2.2 = Result.raised PyErr.modbusExc))))
   pure (Json.mkObj [
     ("trace", jArr (s.trace.reverse.map (fun e => jArr [jNat e.1, Json.str e.2.name]))),
     ("wire", jArr (s.wire.map (fun c => jArr [jNat c.thread, jB01 c.first, jNat c.conn, jNats c.bytes]))),
